@@ -461,6 +461,21 @@ def _on_cycle(w, n):
     return res
 
 
+def inline_rec_once(w, f, times=1):
+    """Unfold the applications of RECURSIVE spec functions occurring in f `times` times (defining
+    equation used as a rewrite) and simplify: accessors are pushed through the if-then-else of the
+    definition, so the node class of each branch becomes visible.  Equivalence preserving."""
+    g = f
+    for _ in range(times):
+        apps = [a for a in _collect1(w, g)[0] if a.decl().name() in w.defs
+                and _on_cycle(w, a.decl().name()) and not a.decl().name().startswith(
+                    ("wf_list__", "comp!", "all!", "any!"))]
+        if not apps:
+            break
+        g = z3.simplify(z3.substitute(g, *[(a, _inst(w, a, None)) for a in apps]))
+    return g
+
+
 def inline_nonrec(w, f, depth=10):
     """Replace applications of NON-recursive spec functions by their definitions (the defining
     equation, applied as a rewrite) and simplify, so that accessor-of-constructor terms reduce and
